@@ -1322,7 +1322,10 @@ class _AlwaysSortable(object):
         self.value = value
 
     def sortable_value(self):
-        return (str(type(self)), id(self))
+        # Incomparable keys are ordered by the name of their type only;
+        # sorted() is stable, so keys of one type keep their insertion order.
+        # (An id()-based tie breaker made the order depend on the allocator.)
+        return str(type(self.value))
 
     def __lt__(self, other):
         try:
